@@ -17,6 +17,8 @@ import SltVerif.Lemmas.CliExample
 import SltVerif.Lemmas.CliAccept
 import SltVerif.Lemmas.CliParallel
 import SltVerif.Lemmas.CliProgress
+import SltVerif.Lemmas.CliTrace
+import SltVerif.Lemmas.CliBegun
 namespace Slt.C19
 open Slt
 
@@ -171,12 +173,20 @@ theorem refused_cancels {c : DCfg} {s s' : DSt} {i : Nat} {res : FileResult}
 
 /-- **… and every file started afterwards is skipped**: in any continuation of a cancelled state,
 the files taken from the pending queue are exactly a prefix `started` of it, each of them is
-reported `skipped`, every other new result is the end of a file that was already in flight (never
-`skipped`), nothing new is in flight and no session is opened. -/
+reported `skipped`, every other new result is the end of a file that was already in flight — a file
+in flight that has opened a session ends cancelled or with its real result; one that had not yet
+looked at the flag may be skipped (a `skipped` result of a file in flight implies that the file is
+not in `begun`) —, nothing new is in flight and no session is opened (`begun` and `nextSess` do not
+change): a file in flight afterwards was in flight before and its open sessions are a sublist of
+those it had then (sessions are only closed, one by one by `closeSession` or all that are left by
+`finish`). -/
 theorem after_cancel_skipped {c : DCfg} {s s' : DSt} {ls : List DLabel}
     (h : drun c s ls = some s') (hc : s.cancelled = true) : CancelledRun s s' :=
   drun_cancelledRun ls s s' hc h
 
+/-- the same after a failure under fail-fast: the files started afterwards are skipped; a file in
+flight that has opened a session ends cancelled or with its real result; one that had not yet looked
+at the flag may be skipped -/
 theorem fail_fast_skips {c : DCfg} {s s1 s' : DSt} {i : Nat} {refused : Bool} {ls : List DLabel}
     (h1 : dstep c s (.finish i .err refused) = some s1) (hff : c.failFast = true)
     (h2 : drun c s1 ls = some s') : CancelledRun s1 s' :=
@@ -271,6 +281,32 @@ theorem pending_at_cancel_skipped {c : DCfg} {ls1 ls2 : List DLabel} {s s' : DSt
     · exfalso
       exact (List.nodup_append.mp hidx).2.2 i (List.mem_append_right _ h4) i hi rfl
 
+/-- **A file that has opened a session is never reported skipped** (for every schedule): `begun`
+collects the files that passed the `is_cancelled()` test and opened a session; a file in flight can
+end `skipped` only if it is not among them. -/
+theorem begun_not_skipped {c : DCfg} {ls : List DLabel} {s : DSt}
+    (h : drun c (dinit c) ls = some s) : ∀ i ∈ s.begun, (i, FileResult.skipped) ∉ s.results :=
+  Slt.begun_not_skipped h
+
+/-- the observable form: **a file for whose database a session was opened is never reported
+skipped** — if the log of a run contains a `connect` for the database of file `i`, the results do
+not contain `(i, skipped)`. -/
+theorem connect_not_skipped {c : DCfg} {mgmt : Str} {ls : List DLabel} {s : DSt} (wf : DWf c mgmt)
+    (h : drun c (dinit c) ls = some s) {i k : Nat} {f : DFile} (hf : c.fileAt i = some f)
+    (hk : CEv.connect k f.db ∈ s.log) : (i, FileResult.skipped) ∉ s.results :=
+  Slt.connect_not_skipped wf h hf hk
+
+/-- a `skipped` result of a file that was in flight needs the flag, no session of that file, and no
+open session of any file in flight: the step logs nothing -/
+theorem finish_skipped_quiet {c : DCfg} {s s' : DSt} {i : Nat} {refused : Bool}
+    (h : dstep c s (.finish i .skipped refused) = some s') :
+    s.cancelled = true ∧ i ∉ s.begun ∧ (∀ p ∈ s.inflight, p.2 = []) ∧ s'.log = s.log := by
+  obtain ⟨ss, _, hs, hsk, _, _, rfl⟩ := dstep_finish_inv h
+  obtain ⟨h1, h2, h3⟩ := hsk rfl
+  refine ⟨h1, h2, h3, ?_⟩
+  have : ss = [] := h3 _ (sessionsOf_mem hs)
+  simp [this]
+
 /-- in any cancelled run there is a cause: the Ctrl-C anchor in the log, or a reported failure
 under fail-fast / with a refused connection -/
 theorem cancelled_has_cause {c : DCfg} {ls : List DLabel} {s : DSt}
@@ -282,19 +318,23 @@ theorem cancelled_has_cause {c : DCfg} {ls : List DLabel} {s : DSt}
 /-! ### bounded termination (in the model: number of driver steps, not wall-clock time) -/
 
 /-- **After the cancellation every schedule is short**: from a state of the running phase with the
-flag set, whatever the driver does next, it takes at most `#in-flight + #pending + #files + 2`
-further steps (each file in flight ends once, each pending file is skipped once, each database is
+flag set, whatever the driver does next, it takes at most
+`#open sessions + #in-flight + #pending + #files + 2` further steps (each open session is closed at
+most once, each file in flight ends once, each pending file is skipped once, each database is
 dropped at most once, plus the two phase changes). -/
 theorem cancelled_run_bounded {c : DCfg} {ls : List DLabel} {s s' : DSt}
     (h : drun c s ls = some s') (hc : s.cancelled = true) (hp : s.phase = .running) :
-    ls.length ≤ s.inflight.length + s.pending.length + c.files.length + 2 := by
-  have := Slt.cancelled_run_bounded (c := c) ls s s' hc (by simp [hp]) h
-  simp only [cancelMeasure, hp] at this
+    ls.length ≤ (s.inflight.map (fun p => p.2.length)).sum + s.inflight.length + s.pending.length +
+      c.files.length + 2 := by
+  have h1 := Slt.cancelled_run_bounded (c := c) ls s s' hc (by simp [hp]) h
+  have h2 := cancelMeasure_running_le c s hp
+  simp only [openSessions] at h2
   omega
 
 /-- **… and it is never stuck**: from such a state the driver can always reach `finished` (ending
-the files in flight as cancelled, skipping the pending ones, dropping the databases), within the
-same bound. -/
+the files in flight as cancelled — `finish` closes whatever sessions a file has left at once —,
+skipping the pending ones, dropping the databases), within `#in-flight + #pending + #files + 2`
+steps, hence within the bound above. -/
 theorem cancelled_can_finish {c : DCfg} (s : DSt) (hp : s.phase = .running)
     (hc : s.cancelled = true) :
     ∃ ls s', drun c s ls = some s' ∧ s'.phase = .finished ∧
@@ -323,8 +363,53 @@ example : (drun exCfg (dinit exCfg) exRunSignal).map (·.results) =
     some [(1, .cancelled), (0, .cancelled), (2, .skipped)] := by decide
 example : (drun exCfg (dinit exCfg) exRunSignal).map
     (fun s => accepts (monCfgOf exCfg (kw "main") s) s.log) = some none := by decide
+-- Ctrl-C while two files are in flight, their sessions closed one by one (`closeSession`), interleaved
+example : (drun exCfg (dinit exCfg) exRunSignalClose).map (·.results) =
+    some [(1, .cancelled), (0, .cancelled), (2, .skipped)] := by decide
+example : (drun exCfg (dinit exCfg) exRunSignalClose).map
+    (fun s => accepts (monCfgOf exCfg (kw "main") s) s.log) = some none := by decide
 -- a start of a new session after the cancellation is not a transition
 example : (drun exCfg (dinit exCfg)
     [.create, .create, .create, .beginRun, .start, .signal, .openSession 0]).isNone = true := by decide
+-- an observed run (`-j 6`, five files, fail-fast, `d` a parse error): `a`, `c`, `e` have opened a session
+-- and are cancelled; `b` occupies a slot but looks at the flag only after it is set: skipped
+example : (drun exCfgFive (dinit exCfgFive) exRunLateSkip).map (fun s => (s.phase, s.results)) =
+    some (.finished, [(3, .err), (0, .cancelled), (2, .cancelled), (4, .cancelled), (1, .skipped)]) := by
+  decide
+example : (drun exCfgFive (dinit exCfgFive) exRunLateSkip).map
+    (fun s => accepts (monCfgOf exCfgFive (kw "main") s) s.log) = some none := by decide
+-- a file that has opened a session cannot end skipped (here every session is already closed)
+example : (drun exCfgFive (dinit exCfgFive)
+    (exRunFivePrefix ++ [.closeSession 0 0, .closeSession 2 1, .closeSession 4 2,
+      .finish 0 .skipped false])).isNone = true := by decide
+
+/-! ### the same for observed runs (trace inclusion, `traceCheck`) -/
+
+/-- **In every observed run that replays in the driver model, each engine session that was opened
+was closed**: every `connect` of the observed log is followed by the `eof` of that session —
+whenever and however the run was cancelled. -/
+theorem observed_all_closed {c : DCfg} {mgmt : Str} {labels : List DLabel} {observed : List CEv}
+    {tags : List FileResult} (wf : DWf c mgmt) (h : traceCheck c labels observed tags = .ok)
+    (pre post : List CEv) (k : Nat) (db : Str)
+    (hlog : stripCancel observed = pre ++ CEv.connect k db :: post) : CEv.eof k ∈ post := by
+  obtain ⟨s, hs⟩ := traceCheck_ok h
+  have hl : stripCancel s.log = pre ++ CEv.connect k db :: post := by rw [hs.log, hlog]
+  unfold stripCancel at hl
+  obtain ⟨l1, l2, hsplit, _, h2⟩ := List.filter_eq_append_iff.mp hl
+  obtain ⟨m1, m2, hm, _, _, hpost⟩ := List.filter_eq_cons_iff.mp h2
+  have hmem : CEv.eof k ∈ m2 :=
+    all_closed wf hs.run hs.finished (l1 ++ m1) m2 k db (by rw [hsplit, hm, List.append_assoc])
+  rw [← hpost]
+  exact List.mem_filter.mpr ⟨hmem, by simp [CEv.isCancel]⟩
+
+/-- … and the per-file results of an observed run that replays are a complete report: one result per
+file. -/
+theorem observed_report_complete {c : DCfg} {labels : List DLabel} {observed : List CEv}
+    {tags : List FileResult} (h : traceCheck c labels observed tags = .ok) :
+    tags.length = c.files.length ∧
+    ∃ s : DSt, (s.results.map (·.1)).Perm (List.range c.files.length) ∧
+      ∀ i, i < c.files.length → resultOf s.results i = tags[i]? := by
+  obtain ⟨s, hs⟩ := traceCheck_ok h
+  exact ⟨hs.ntags, s, results_perm_of_finished hs.run (Or.inr hs.finished), hs.results⟩
 
 end Slt.C19
